@@ -679,12 +679,12 @@ func tokenLoopPrefix(j, tl int, free bool) []slOp {
 
 func c13Work(c *engine.Ctx) {
 	sp := c.SpaceByName("sl")
-	datas := []string{"", "a", "ab", "abc", "abcd", "abcdef", "abcdefgh", "abcdefghij", "abc\u00e9f", "ab\u2028f"}
+	datas := []string{"", "a", "ab", "abc", "abcd", "abcdef", "abcdefgh", "abcdefghij", "abc\u00e9f", "ab\u2028f", "ab\u20acde", "a\U0001F600bc", "\u20ac\U0001F600"}
 	sizes := []int{0, 1, 2, 3, 4, 5, 8, -1}
 	depth := c.Pick(7, 9)
 	devs := c.Pick(2, 3)
 	if !c.Thorough() {
-		datas = []string{"", "a", "abc", "abcdef", "abcdefghij", "abc\u00e9f"}
+		datas = []string{"", "a", "abc", "abcdef", "abcdefghij", "abc\u00e9f", "ab\u20acde", "a\U0001F600bc"}
 		sizes = []int{0, 1, 2, 3, 4, 8, -1}
 	}
 	k := 0
